@@ -107,11 +107,13 @@ def tree_key(repo=None):
                     continue
                 h.update(os.path.relpath(p, repo).encode())
                 h.update(hashlib.sha256(data).digest())
-    wdir = os.path.join(VERIF, 'witness')
-    for fn in sorted(os.listdir(wdir)) if os.path.isdir(wdir) else []:
-        with open(os.path.join(wdir, fn), 'rb') as f:
-            h.update(fn.encode())
-            h.update(hashlib.sha256(f.read()).digest())
+    for wdir in (os.path.join(VERIF, 'witness'), os.path.join(VERIF, 'triage', 'c14')):
+        for fn in sorted(os.listdir(wdir)) if os.path.isdir(wdir) else []:
+            if not fn.endswith(('.cpp', '.xml')):
+                continue
+            with open(os.path.join(wdir, fn), 'rb') as f:
+                h.update(fn.encode())
+                h.update(hashlib.sha256(f.read()).digest())
     _tree_key[repo] = h.hexdigest()[:24]
     return _tree_key[repo]
 
